@@ -727,6 +727,7 @@ def r6_regrouped_fields(run, w):
             text(c2.key) == "%s.colRef.colId" % text(c2.generators[0].target):
           maps.add(nm_)
         break
+  _r6_table_ref_restored(run, R6, w, fn)
   # (a) the keep set: fields whose column id is not in it are deleted
   removes = []
   for (n, c, nm) in fn.calls():
@@ -846,6 +847,39 @@ def r6_regrouped_fields(run, w):
            % ", ".join(bad_new))
 
 
+def _r6_table_ref_restored(run, R6, w, fn):
+  """update_summary_section unsets the section's tableRef before it re-points the fields; every
+  normal path from that reset must reach an update that sets tableRef again (to the summary
+  table), else the section is left pointing at no table."""
+  cfg = fn.cfg
+  resets, sets = set(), set()
+  for (n, c, nm) in fn.calls():
+    if isinstance(c.func, ast.Attribute) and c.func.attr == "update" and \
+        fn.type_of(c.func.value) == T.DOCMODEL:
+      v = H.kwarg(c, "tableRef")
+      if v is None:
+        continue
+      if H.const_value(H.deref(fn, v)) == (True, 0):
+        resets.add(n.id)
+      else:
+        sets.add(n.id)
+  if not resets:
+    return
+  if not sets and H.mentions_in_reach(
+      w, fn, lambda x: isinstance(x, ast.keyword) and x.arg == "tableRef", depth=2) and \
+      not any(isinstance(x, ast.keyword) and x.arg == "tableRef" and
+              H.const_value(x.value) != (True, 0) for x in ast.walk(fn.node)):
+    raise AnalysisError("update_summary_section: tableRef is set again only inside a helper")
+  for r in sorted(resets):
+    ok = bool(sets) and cfg.postdominated_by(r, sets)
+    run.ob(R6, fn.qualname, "update(tableRef=0) ... update(tableRef=<summary table>)",
+           "after the section's tableRef was unset, every normal path sets it to the summary "
+           "table again (also when the section stays with the same table)", ok, fi=fn.fi,
+           node=cfg.nodes[r].stmt,
+           witness=None if ok else cfg.describe_path(
+             cfg.path(r, {cfg.exit.id}, removed=sets, after=True)))
+
+
 U = "sandbox/grist/useractions.py"
 EN = "sandbox/grist/engine.py"
 DM = "sandbox/grist/docmodel.py"
@@ -914,6 +948,10 @@ VARIANTS = [(a, b, c, d, "C09-R1") for (a, b, c, d) in R1_VARIANTS] + [
    """    visible_formula_columns = [c for c in formula_columns if c.colId in colid_to_field_map]
     formula_fields = [colid_to_field_map[c.colId] for c in visible_formula_columns]
 """, "C09-R6"),
+  ("regrouped-section-not-repointed-when-table-unchanged", SM,
+   "    # Finally update the section to point to the new table.\n    self.docmodel.update([view_section], tableRef=summary_table.id, **update_args)",
+   "    if summary_table != orig_table:\n      self.docmodel.update([view_section], tableRef=summary_table.id, **update_args)",
+   "C09-R6"),
   ("regrouped-fields-kept-by-requested-groupby-ids", SM,
    "    colid_keep_set = set(c.colId for c in prev_group_cols + formula_colinfo)",
    "    colid_keep_set = groupby_colids | set(ci.colId for ci in formula_colinfo)", "C09-R6"),
